@@ -409,26 +409,25 @@ class XBuffer(ABC):
         else:
             alignment = 1
         # sizepa = size + alignment - 1
-        for chunk in self.chunks:
-            offset = _align(chunk.start, alignment)
-            newend = offset + size
-            if chunk.end >= newend:
-                chunk.start = newend
-                if chunk.size == 0:
-                    self.chunks.remove(chunk)
-                return offset
+        while True:
+            for chunk in self.chunks:
+                offset = _align(chunk.start, alignment)
+                newend = offset + size
+                if chunk.end >= newend:
+                    chunk.start = newend
+                    if chunk.size == 0:
+                        self.chunks.remove(chunk)
+                    return offset
 
-        # no free slot check if can be allocated then try to grow
-        sizepa = size + alignment - 1
-        if sizepa > self.capacity:
-            self.grow(sizepa)
-        elif self.grow_step is not None:
-            self.grow(self.grow_step)
-        else:
-            self.grow(self.capacity)
-
-        # try again
-        return self.allocate(size, align=align)
+            # no free slot check if can be allocated then try to grow
+            # and try again
+            sizepa = size + alignment - 1
+            if sizepa > self.capacity:
+                self.grow(sizepa)
+            elif self.grow_step is not None:
+                self.grow(self.grow_step)
+            else:
+                self.grow(self.capacity)
 
     def grow(self, capacity):
         """
